@@ -224,6 +224,12 @@ func VerifPoolTokens(k int, variant int) ([]lexer.Token, int) {
 	case 3: // a directive and a start rule come first
 		fixedKinds = append(fixedKinds, "@left", "STRING", ";", "IDENT", "=", "STRING", "IDENT", ";")
 		fixedLex = append(fixedLex, "@left", "s", ";", "start", "=", "s", "aa", ";")
+	case 5: // two string tokens whose values the literals of the pools repeat: several "same value" groups arise (C15)
+		fixedKinds = append(fixedKinds, "TOKEN", "=", "STRING", ";", "TOKEN", "=", "STRING", ";", "IDENT", "=", "TOKEN", "TOKEN", ";")
+		fixedLex = append(fixedLex, "TA", "=", "s", ";", "TB", "=", "t", ";", "start", "=", "TA", "TB", ";")
+	case 6: // three patterns that capture common strings in two different ways: several conflicting final states arise (C15)
+		fixedKinds = append(fixedKinds, "TOKEN", "=", "REGEX", ";", "TOKEN", "=", "REGEX", ";", "TOKEN", "=", "REGEX", ";", "IDENT", "=", "TOKEN", "TOKEN", "TOKEN", ";")
+		fixedLex = append(fixedLex, "TA", "=", "y", ";", "TB", "=", "y|zz", ";", "TC", "=", "zz", ";", "start", "=", "TA", "TB", "TC", ";")
 	case 4: // a complete well-formed specification comes first, so that a repeated definition can be the only defect
 		fixedKinds = append(fixedKinds, "TOKEN", "=", "STRING", ";", "TOKEN", "=", "REGEX", ";", "IDENT", "=", "TOKEN", "TOKEN", ";")
 		fixedLex = append(fixedLex, "TA", "=", "s", ";", "TB", "=", "x", ";", "start", "=", "TA", "TB", ";")
@@ -244,6 +250,9 @@ func VerifPoolTokens(k int, variant int) ([]lexer.Token, int) {
 				to[j] = []string{"TA", "TB"}[i%2]
 			case "STRING":
 				to[j] = []string{"s", "t", "s"}[i%3]
+				if variant == 5 {
+					to[j] = []string{"s", "t"}[i%2]
+				}
 			case "REGEX":
 				to[j] = []string{"x", "y", "(", "x"}[i%4]
 			case "PREDEF":
